@@ -1,8 +1,10 @@
 #!/bin/bash
-# runs every seeded change under /verif/seeded against the quick check of its own property; writes seeded/RESULTS.txt
+# runs every seeded change under /verif/seeded against the quick check of its own property (3 at a time);
+# writes seeded/RESULTS.txt, then tools/seedtable.py turns it into seeded/TABLE.md
 cd /verif
-out=seeded/RESULTS.txt; : > $out
-for t in seeded/C*-*; do
-  id=$(basename $t); p=${id%%-*}
-  tools/seedtest.sh /verif/$t $p 2>&1 | cut -c1-400 >> $out
-done
+tmp=$(mktemp -d /tmp/seedall.XXXXXX)
+ls -d seeded/C*-* | sort -t- -k1,1 -k2,2n | xargs -P 3 -I{} sh -c 'id=$(basename {}); p=${id%%-*}; tools/seedtest.sh /verif/{} $p 2>&1 | cut -c1-400 > '$tmp'/$id.txt'
+: > seeded/RESULTS.txt
+for t in $(ls -d seeded/C*-* | sort -t- -k1,1 -k2,2n); do cat $tmp/$(basename $t).txt >> seeded/RESULTS.txt; done
+rm -rf $tmp
+python3 tools/seedtable.py
